@@ -216,13 +216,15 @@ void canary_check(const char *where)
 
 /* ================================================================= world */
 struct world W;
-bool NEXT_WORLD_USE_MUTEX;
+bool NEXT_WORLD_USE_MUTEX; unsigned EMPTY_TABLE_PM = 160;
+static struct cat_object *SHADOW;          /* second, unrelated parser instance (see below) */
 void w_begin(void)
 {
         xfree_all();
         memset(&W, 0, sizeof W);
         W.gptr = NULL;
         W.use_mutex = NEXT_WORLD_USE_MUTEX;
+        SHADOW = NULL;
 }
 struct cat_command *w_group(size_t ncmd, bool disable)
 {
@@ -238,7 +240,11 @@ struct cat_command *w_group(size_t ncmd, bool disable)
 }
 struct cat_variable *w_vars(struct cat_command *c, size_t nv)
 {
-        if (nv == 0) { c->var = NULL; c->var_num = 0; return NULL; }
+        if (nv == 0) {          /* no variables: var_num 0 with var NULL or (one in six) with var pointing at an empty table */
+                c->var = EMPTY_TABLE_PM && rn(1000) < EMPTY_TABLE_PM ? xalloc(0) : NULL; c->var_num = 0;
+                if (c->var) CNT("commands_with_an_empty_variable_table");
+                return NULL;
+        }
         struct cat_variable *v = xalloc(nv * sizeof *v);
         memset(v, 0, nv * sizeof *v);
         c->var = v; c->var_num = nv;
@@ -266,6 +272,80 @@ static void fill(void *p, size_t n, int mode)
         if (mode == 0) memset(p, 0, n);
         else { uint8_t *b = p; uint64_t x = 0; for (size_t i = 0; i < n; i++) { if ((i & 7) == 0) x = rnd(); b[i] = (uint8_t)(x >> ((i & 7) * 8)); } }
 }
+/* ---- "previous life" of the parser object and a second, unrelated parser instance --------------------------------------------
+ * cat_init must make a used object as good as a new one, and two parser objects must not share anything.  Both are workload
+ * dimensions, not oracles: the property monitors of the check that uses the world decide.  The other parser has its own small
+ * command table (two groups, 2 + 4 commands), its own buffers and its own io callbacks; nothing of it is visible to the monitors. */
+unsigned PRELIFE_PCT = 25, SHADOW_PCT = 20;
+static bool in_other_parser;
+static prng_t OP;                                   /* private stream of the other parser (seeded from G once per use) */
+static uint8_t op_in[96]; static size_t op_inlen, op_inpos; static unsigned op_wpct;
+static int op_read(char *ch) { if (op_inpos >= op_inlen) return 0; *ch = (char)op_in[op_inpos++]; return 1; }
+static int op_write(char ch) { (void)ch; return pr_pct(&OP, op_wpct) ? 1 : 0; }
+static struct cat_io_interface op_io = { .write = op_write, .read = op_read };
+static uint8_t op_v0[4]; static char op_v1[8]; static uint8_t op_v2[3];
+static cat_return_state op_run(const struct cat_command *c) { (void)c; unsigned r = pr_n(&OP, 10); return r < 5 ? CAT_RETURN_STATE_OK : r < 7 ? CAT_RETURN_STATE_HOLD : r < 8 ? CAT_RETURN_STATE_PRINT_CMD_LIST_OK : CAT_RETURN_STATE_ERROR; }
+static cat_return_state op_rd(const struct cat_command *c, uint8_t *d, size_t *n, size_t m) { (void)c; (void)d; (void)n; (void)m; unsigned r = pr_n(&OP, 10); return r < 6 ? CAT_RETURN_STATE_DATA_OK : r < 8 ? CAT_RETURN_STATE_DATA_NEXT : CAT_RETURN_STATE_HOLD; }
+static cat_return_state op_wr(const struct cat_command *c, const uint8_t *d, size_t n, size_t a) { (void)c; (void)d; (void)n; (void)a; return pr_pct(&OP, 80) ? CAT_RETURN_STATE_OK : CAT_RETURN_STATE_HOLD; }
+static struct cat_variable op_vars[3] = {
+        { .type = CAT_VAR_UINT_DEC, .data = op_v0, .data_size = 4, .name = "a" },
+        { .type = CAT_VAR_BUF_STRING, .data = op_v1, .data_size = 8 },
+        { .type = CAT_VAR_BUF_HEX, .data = op_v2, .data_size = 3, .access = CAT_VAR_ACCESS_READ_ONLY },
+};
+static struct cat_command op_g0[2] = {
+        { .name = "+P0", .run = op_run, .read = op_rd },
+        { .name = "+P1", .write = op_wr, .var = op_vars, .var_num = 3 },
+};
+static struct cat_command op_g1[4] = {
+        { .name = "+P2", .run = op_run, .description = "two" },
+        { .name = "+P3", .read = op_rd, .var = op_vars, .var_num = 2 },
+        { .name = "+Q", .run = op_run, .write = op_wr },
+        { .name = "+P5", .run = op_run, .test = op_rd },
+};
+static struct cat_command_group op_grp0 = { .cmd = op_g0, .cmd_num = 2 }, op_grp1 = { .cmd = op_g1, .cmd_num = 4 };
+static struct cat_command_group *op_groups[2] = { &op_grp0, &op_grp1 };
+static uint8_t op_buf[64], op_ubuf[24], op_buf2[48];
+static struct cat_descriptor op_desc = { .cmd_group = op_groups, .cmd_group_num = 2, .buf = op_buf, .buf_size = sizeof op_buf, .unsolicited_buf = op_ubuf, .unsolicited_buf_size = sizeof op_ubuf };
+static struct cat_descriptor op_desc2 = { .cmd_group = op_groups, .cmd_group_num = 2, .buf = op_buf2, .buf_size = sizeof op_buf2 };      /* previous life: shared buffer */
+static void op_feed(void)
+{
+        static const char *ln[] = { "AT+P0\n", "AT+P1=5,\"ab\",0102\n", "AT+P2\r\n", "AT+P3?\n", "AT+Q\n", "AT+P5=?\n", "AT+Q=1\n", "AT+P\n", "AT+P1=7", "AT+P5", "at+p3", "AT\n", "AT+P0?\n" };
+        op_inlen = op_inpos = 0;
+        for (unsigned k = 0, n = 1 + pr_n(&OP, 3); k < n; k++) {
+                const char *l = ln[pr_n(&OP, sizeof ln / sizeof ln[0])]; size_t L = strlen(l);
+                if (op_inlen + L <= sizeof op_in) { memcpy(op_in + op_inlen, l, L); op_inlen += L; }
+        }
+}
+static void op_steps(struct cat_object *o, unsigned n)
+{
+        in_other_parser = true;
+        for (unsigned i = 0; i < n; i++) {
+                if (pr_pct(&OP, 6)) (void)cat_trigger_unsolicited_event(o, &op_g1[pr_n(&OP, 4)], pr_pct(&OP, 50) ? CAT_CMD_TYPE_READ : CAT_CMD_TYPE_TEST);
+                if (pr_pct(&OP, 2)) (void)cat_hold_exit(o, CAT_STATUS_OK);
+                (void)cat_service(o);
+        }
+        in_other_parser = false;
+}
+/* the object about to be handed to cat_init has been another parser before: left idle, in the middle of a line, held by a handler, with events
+ * queued or with a response half flushed */
+static void prelife(struct cat_object *o)
+{
+        pr_seed(&OP, rnd(), 0x50524531ULL);
+        op_wpct = pr_pct(&OP, 50) ? 100 : 40;
+        in_other_parser = true; cat_init(o, &op_desc2, &op_io, NULL); in_other_parser = false;
+        op_feed();
+        op_steps(o, pr_n(&OP, 120));
+        CNT("objects_with_a_previous_life");
+        if (cat_is_hold(o) == CAT_STATUS_HOLD) CNT("objects_reinitialised_while_held");
+}
+void shadow_step(void)
+{
+        if (!SHADOW) return;
+        if (op_inpos >= op_inlen && pr_pct(&OP, 10)) op_feed();
+        int save = PHASE;
+        op_steps(SHADOW, 1 + pr_n(&OP, 3));
+        PHASE = save;
+}
 void w_reinit(int fillmode)
 {
         W.fillmode = fillmode;
@@ -284,6 +364,16 @@ void w_reinit(int fillmode)
                 if (W.ubuf && W.ubufsz) fill(W.ubuf, W.ubufsz, fillmode);
         }
         PHASE = 0;
+#ifndef VERIF_MSAN
+        if (fillmode == 1 && chance(PRELIFE_PCT)) { prelife(W.at); W.fillmode = 4; }
+        if (SHADOW == NULL && fillmode != 3 && chance(SHADOW_PCT)) {
+                SHADOW = xalloc(sizeof *SHADOW); memset(SHADOW, 0, sizeof *SHADOW);
+                pr_seed(&OP, rnd(), 0x53484144ULL); op_wpct = 70;
+                in_other_parser = true; cat_init(SHADOW, &op_desc, &op_io, NULL); in_other_parser = false;
+                op_feed();
+                CNT("worlds_with_a_second_parser_instance");
+        }
+#endif
         scribble.s = 88172645463325252ULL;          /* the garbage handed back on refused reads is reproducible per parser instance */
         cat_init(W.at, W.desc, &IO, W.use_mutex ? &MUTEX : NULL);
 }
@@ -365,11 +455,12 @@ void out_reset(void) { OUTN = 0; }
 
 /* mutex mock */
 int MX_DEPTH; long MX_LOCKS, MX_UNLOCKS; long MX_FAIL_LOCK_AT = -1, MX_FAIL_UNLOCK_AT = -1;
-void (*ON_LOCK)(bool, int);
+void (*ON_LOCK)(bool, int); void (*ON_LOCK_WAIT)(long);
 static int mx_lock(void)
 {
         long k = MX_LOCKS++;
         int r = 0;
+        if (ON_LOCK_WAIT) ON_LOCK_WAIT(k);      /* the caller waits for the mutex here: whoever holds it may complete whole API calls meanwhile */
         if (k == MX_FAIL_LOCK_AT) r = 1;
         else {
                 if (MX_DEPTH != 0) viol("C16", "lock-while-held", "mutex->lock called while the lock is already held");
@@ -486,8 +577,7 @@ static uint8_t *trans_seen; /* (27*11)^2 bits */
 static int prev_pair = -1;
 void cat_verif_phase(struct cat_object *self, int code)
 {
-        (void)self;
-        if (self != W.at) return;
+        if (self != W.at || in_other_parser) return;
         if (!RAW_COMPARES) { if (code <= 2) PHASE = code; ev(EV_PHASE, code, 0, 0); if (ON_PHASE) ON_PHASE(code); return; }
         if (code == 1) {
                 if (W.capA <= sizeof snapA) memcpy(snapA, W.bufA, W.capA);
@@ -591,6 +681,7 @@ cat_status svc(void)
                 prev_pair = pair;
         }
         CUR_STEP++;
+        if (SHADOW) shadow_step();          /* the other parser instance is serviced in turns with the one under observation */
         cat_status s = cat_service(W.at);
         PHASE = 0;
         return s;
@@ -641,7 +732,7 @@ void verif_case_reset(void);
 static void case_reset(void)
 {
         cur_failed = false; CUR_STEP = 0; PHASE = 0; READ_GATE = true;
-        ON_READ = NULL; ON_READ_REFUSED = NULL; ON_WRITE = NULL; ON_UNIT = NULL; ON_PHASE = NULL; ON_LOCK = NULL;
+        ON_READ = NULL; ON_READ_REFUSED = NULL; ON_WRITE = NULL; ON_UNIT = NULL; ON_PHASE = NULL; ON_LOCK = NULL; ON_LOCK_WAIT = NULL;
         POLICY = NULL; VPOLICY = NULL; NEXT_WORLD_USE_MUTEX = false; NOISE_CMD = NULL; NOISE_PM = 0;
         MX_DEPTH = 0; MX_LOCKS = MX_UNLOCKS = 0; MX_FAIL_LOCK_AT = MX_FAIL_UNLOCK_AT = -1;
         sch_eager(&RS); sch_eager(&WS);
@@ -762,6 +853,8 @@ void w_describe(FILE *f)
         static const char *an[] = { "RW", "RO", "WO" };
         fprintf(f, "queue capacity %d; buf_size %zu (%s), unsolicited_buf_size %zu; command capacity %zu, event capacity %zu; mutex %s; object prefill %d\n",
                 QCAP, W.bufsz, W.shared ? "shared, split in halves" : "separate unsolicited buffer", W.ubufsz, W.capA, W.capU, W.use_mutex ? "yes" : "no", W.fillmode);
+        if (W.fillmode == 4) fprintf(f, "the parser object was another parser before cat_init (previous life: 6 commands in groups 2+4, left wherever %s)\n", "its traffic stopped");
+        if (SHADOW) fprintf(f, "a second, unrelated parser instance (6 commands in groups 2+4) is serviced in turns with this one\n");
         for (size_t i = 0; i < W.ncmds && i < 80; i++) {
                 const struct cat_command *c = W.cmd[i];
                 char nb[200]; fmt_bytes(nb, sizeof nb, (const uint8_t *)c->name, strlen(c->name));
